@@ -331,6 +331,43 @@ func genInterpCase(id int, rng *RNG, prof *Profile) *interpCase {
 			g.tag("scenario:exit-in-include-inside-bound-tag")
 		}
 	}
+	if prof.Mods && g.data.User.Present && g.data.User.HasFinance && len(g.data.User.History) >= 2 && len(g.data.User.History) <= 8 && rng.Chance(10) {
+		// one print tag evaluated again and again with a modifier argument that changes from
+		// iteration to iteration
+		vv := g.newVar("v")
+		pr := &Ast{K: "print", Path: []string{"nosuch.Field", "user.Nope"}[rng.Intn(2)], Mods: []AMod{{Name: []string{"default", "def"}[rng.Intn(2)], Args: []AArg{{Text: vv + ".Comment"}}}}}
+		if rng.Bool() {
+			pr = &Ast{K: "print", Path: vv + ".DateUnix", Mods: []AMod{{Name: "vcat", Args: []AArg{{Text: vv + ".Comment"}}}}}
+		}
+		ic.ast = append(ic.ast, &Ast{K: "rloop", Var: vv, Src: "user.Finance.History", Body: []*Ast{{K: "text", Text: []byte("[")}, pr, {K: "text", Text: []byte("]")}}}, &Ast{K: "text", Text: g.marker()})
+		g.tag("scenario:same-tag-changing-argument")
+	}
+	if prof.W["counter"] > 0 && rng.Chance(10) {
+		// the body of a counting loop assigns to the loop's own variable: the assignment is read
+		// back in that iteration, the next iteration starts from the loop's counter again
+		iv := g.newVar("i")
+		var assign *Ast
+		if rng.Bool() {
+			assign = &Ast{K: "counter", Var: iv, CntOp: "+", CntArg: 10}
+		} else {
+			assign = &Ast{K: "if", Cond: &ACond{L: iv, Op: "==", R: "1", RLit: true}, Then: []*Ast{{K: "ctx", CtxVar: iv, CtxLit: true, CtxSrc: "x", CtxQuote: `"`}}}
+		}
+		loop := &Ast{K: "cloop", Var: iv, Init: "0", InitLit: true, Op: "<", Lim: "4", LimLit: true, Step: "++",
+			Body: []*Ast{{K: "text", Text: []byte("[")}, {K: "print", Path: iv}, assign, {K: "text", Text: []byte(":")}, {K: "print", Path: iv}, {K: "text", Text: []byte("]")}}}
+		ic.ast = append(ic.ast, loop, &Ast{K: "text", Text: g.marker()})
+		if g.budget < 8 {
+			g.budget = 8
+		}
+		g.tag("scenario:loop-body-assigns-loop-variable")
+	}
+	if prof.Includes && rng.Chance(8) {
+		// an included template that renders nothing (an empty source, a comment): the include is
+		// there, the including template goes on
+		if key, ok := addSub([]*Ast{}); ok {
+			ic.ast = append(ic.ast, &Ast{K: "text", Text: g.marker()}, &Ast{K: "include", IncKw: []string{"include", "."}[rng.Intn(2)], Names: []string{key}}, &Ast{K: "text", Text: g.marker()})
+			g.tag("scenario:include-of-empty-template")
+		}
+	}
 	if prof.W["exit"] > 0 && rng.Chance(12) {
 		// exit behind a lazybreak (or a continue-less break form) in one block of a loop body:
 		// the template stops at the exit, whatever the loop had pending
